@@ -235,7 +235,10 @@ def check_cost(c, rec):
 # ---- cost inside single C calls (list.insert(0, ...), repeated concatenation): CPU time per recorded operation ------
 @st.composite
 def cpu_cost_cases(draw):
-    return {"n1": 20000, "n2": draw(st.sampled_from([320000, 400000])), "kind": draw(st.sampled_from(["chain", "chain", "diamonds"]))}
+    kind = draw(st.sampled_from(["chain", "diamonds", "wide_stack", "wide_stack"]))
+    if kind == "wide_stack":        # ONE op with n operands: per-operand copies of the operand tuple would be quadratic
+        return {"n1": 3000, "n2": 48000, "kind": kind}
+    return {"n1": 20000, "n2": draw(st.sampled_from([320000, 400000])), "kind": kind}
 
 
 def check_cpu_cost(c, rec):
@@ -253,6 +256,8 @@ def check_cpu_cost(c, rec):
         if c["kind"] == "chain":
             for _ in range(n // 2):
                 y = y * 1.0001 + 0.0001
+        elif c["kind"] == "wide_stack":
+            y = sg.stack([x * (1.0 + 0.001 * (i % 97)) for i in range(n)], 0).sum(0)
         else:
             for _ in range(n // 3):
                 y = y * 0.5 + y * 0.5
@@ -288,7 +293,7 @@ def check_cpu_cost(c, rec):
 def loop_cases(draw, lengths):
     return {"L": draw(st.sampled_from(lengths)),
             "mode": draw(st.sampled_from(["no_grad", "no_requires_grad", "no_grad_on_param", "no_grad_after_backward"])),
-            "body": draw(st.sampled_from(["affine", "tanh", "matmul", "index", "sum_broadcast", "varying_scalars", "varying_scalars"])), "dtype": draw(st.sampled_from(["float32", "float64"])),
+            "body": draw(st.sampled_from(["affine", "tanh", "matmul", "index", "sum_broadcast", "varying_scalars", "varying_scalars", "views_only", "slice_shrink", "conv", "pool"])), "dtype": draw(st.sampled_from(["float32", "float64"])),
             # the loop runs while retain_grads() is in force as well (it concerns recorded tensors only)
             "retain": draw(st.sampled_from([False, False, True]))}
 
@@ -312,6 +317,13 @@ def check_loop(c, rec):
             # coefficients that change every step (decaying rate, running mean): t <- t*(1 - 1/(i+2)) + 1/(i+3) - 0.001/i
             i = step[0]
             return t * (1.0 - 1.0 / (i + 2)) + 1.0 / (i + 3) - 0.001 / i
+        if c["body"] == "views_only":
+            # every step returns a VIEW of its operand's memory (no fresh array breaks the chain)
+            return t.transpose(0, 1).transpose(0, 1).unsqueeze(0).squeeze(0).reshape(tuple(t.shape))[...]
+        if c["body"] == "conv":
+            return sg.nn.functional.conv2d(t.reshape((1, 1, 2, 3)), kern, None, 1, 1).reshape((2, 3)) * 0.25
+        if c["body"] == "pool":
+            return sg.nn.functional.avg_pool2d(t.reshape((1, 1, 2, 3)), 1).reshape((2, 3))
         if c["body"] == "affine":
             return t * 0.9999 + 0.0001
         if c["body"] == "tanh":
@@ -322,8 +334,17 @@ def check_loop(c, rec):
             return t[...] * 1.0
         return t - t.mean() * 0.001
 
+    kern = Tensor(np.full((1, 1, 3, 3), 0.1, dtype=dt))
+
     def loop():
         nonlocal y
+        if c["body"] == "slice_shrink":
+            # a queue consumed from the front: rest = rest[1:] - each step a view of the previous one
+            y = Tensor(np.ones((L + 2, 3), dtype=dt), requires_grad=on_param)
+            for _ in range(L):
+                y = y[1:]
+                refs.append(weakref.ref(y))
+            return
         for _ in range(L):
             y = body(y)
             refs.append(weakref.ref(y))
@@ -358,7 +379,7 @@ def subchecks():
     return [SubCheck("graphs", check_graph, lambda: graph_cases(DEPTHS_Q), quick=14, thorough=0, shards_quick=8, shards_thorough=1),
             SubCheck("graphs_deep", check_graph, lambda: graph_cases(DEPTHS_T), quick=0, thorough=100, shards_quick=1, shards_thorough=16),
             SubCheck("cost", check_cost, None, enum=enum_cost, exhaustive=True, shards_quick=8, shards_thorough=16),
-            SubCheck("cost_cpu_time", check_cpu_cost, cpu_cost_cases, quick=0, thorough=2, shards_quick=1, shards_thorough=1),
+            SubCheck("cost_cpu_time", check_cpu_cost, cpu_cost_cases, quick=0, thorough=4, shards_quick=1, shards_thorough=1),
             SubCheck("untracked_loops", check_loop, lambda: loop_cases([10, 100, 1000, 3000]), quick=25, thorough=0, shards_quick=4),
             SubCheck("untracked_loops_long", check_loop, lambda: loop_cases([1000, 3000, 10000]), quick=0, thorough=100,
                      shards_quick=1, shards_thorough=8)]
